@@ -68,8 +68,8 @@ theorem responses_skip_matches (c : Int) :
   unfold Funcs.responsesSkip
   have h1 : Consts.ParseError = Wire.ParseError := rfl
   have h2 : Consts.InvalidRequest = Wire.InvalidRequest := rfl
-  rw [h1, h2]
-  by_cases a : c = Wire.ParseError <;> by_cases b : c = Wire.InvalidRequest <;> simp [a, b, bne]
+  have hd : Wire.ParseError ≠ Wire.InvalidRequest := by decide
+  by_cases a : c = Wire.ParseError <;> by_cases b : c = Wire.InvalidRequest <;> simp_all [bne, hd, hd.symm]
 
 /-- `filterBatchLocked` drops exactly the unmatched reply-shaped members on a push server -/
 theorem drop_matches (cfg : Cfg) (j : Msg) (hnr : j.isRequestOrNotification = false) :
